@@ -170,6 +170,7 @@ type FuncVC struct {
 	params     map[string]Val
 	streamAppend func(r, d, x Term, xv ssa.Value, pos token.Pos)
 	inGlobalInv bool
+	sliceOrigins map[ssa.Value]sliceOrigin
 	lenient bool
 	inert bool
 	replayTemplate string
@@ -286,7 +287,8 @@ func (fv *FuncVC) ensureSort(s Sort) {
 	switch s.Kind {
 	case KBytes:
 		b := SByte.smt(fv.Mode)
-		fv.sortDecls = append(fv.sortDecls, fmt.Sprintf("(declare-datatypes ((Bytes 0)) (((mk_Bytes (Bytes_len %s) (Bytes_arr (Array %s %s)) (Bytes_off %s) (Bytes_base Int) (Bytes_cap %s) (Bytes_g1 Int) (Bytes_g2 Int)))))", idx, idx, b, idx, idx))
+		fv.sortDecls = append(fv.sortDecls, fmt.Sprintf("(declare-datatypes ((Bytes 0)) (((mk_Bytes (Bytes_len %s) (Bytes_arr (Array %s %s)) (Bytes_off %s) (Bytes_base Int) (Bytes_cap %s) (Bytes_g1 Int) (Bytes_g2 Int) (Bytes_g3 Int)))))", idx, idx, b, idx, idx))
+		fv.sortDecls = append(fv.sortDecls, fv.streamPrelude()...)
 	case KSlice:
 		fv.ensureSort(*s.Elem)
 		fv.sortDecls = append(fv.sortDecls, fmt.Sprintf("(declare-datatypes ((%[1]s 0)) (((mk_%[1]s (%[1]s_len %[2]s) (%[1]s_arr (Array %[2]s %[3]s)) (%[1]s_off %[2]s) (%[1]s_base Int) (%[1]s_cap %[2]s)))))", key, idx, s.Elem.smt(fv.Mode)))
@@ -490,7 +492,13 @@ func (fv *FuncVC) zero(gt types.Type) Term {
 	// floats, opaque, arrays: a fresh constant that is the same for every
 	// zero value of that type
 	name := "zero_" + sortTag(s, fv.Mode)
-	fv.declare(name, s)
+	if !fv.declared[name] {
+		fv.declare(name, s)
+		if at, ok := gt.Underlying().(*types.Array); ok {
+			ez := fv.zero(at.Elem())
+			fv.assert(fmt.Sprintf("(forall ((k %s)) (! (= (select %s k) %s) :pattern ((select %s k))))", idxSort(fv.Mode), name, ez.S, name))
+		}
+	}
 	return Term{S: name, Sort: s}
 }
 
@@ -502,7 +510,7 @@ func (fv *FuncVC) emptySlice(s Sort) Term {
 		z := fv.ilit(0)
 		fv.assert(smtAnd(app("=", fv.lenOf(t), z), app("=", fv.capOf(t), z), app("=", fv.offOf(t), z), app("=", fv.baseOf(t), "0")))
 		if s.Kind == KBytes {
-			fv.assert(smtAnd(app("=", app("Bytes_g1", name), "0"), app("=", app("Bytes_g2", name), "0")))
+			fv.assert(fv.ghostTop(name))
 		}
 	}
 	return Term{S: name, Sort: s}
@@ -624,6 +632,10 @@ func (fv *FuncVC) globalTerm(st *State, g *ssa.Global) Term {
 	if !fv.declared[name] {
 		fv.declare(name, s)
 		fv.assert(fv.wf(t, gt))
+		if fv.Fn.Name() == "init" && fv.Fn.Pkg == g.Pkg && fv.Fn.Synthetic != "" {
+			// package variables hold their zero value when the package initializer starts
+			fv.assert(app("=", t.S, fv.zero(gt).S))
+		}
 		fv.assumeGlobalInvs(g, t)
 	}
 	fv.entry.globals[g] = t
@@ -724,7 +736,7 @@ func (fv *FuncVC) store(st *State, lv *LValue, v Term) {
 func (fv *FuncVC) rebuildSlice(sl Term, repl map[string]string, dt string) Term {
 	comps := []string{"len", "arr", "off", "base", "cap"}
 	if sl.Sort.Kind == KBytes {
-		comps = append(comps, "g1", "g2")
+		comps = append(comps, "g1", "g2", "g3")
 	}
 	var args []string
 	for _, c := range comps {
@@ -821,4 +833,17 @@ func sortedKeys(m map[string]bool) []string {
 	}
 	sort.Strings(ks)
 	return ks
+}
+
+// forallCopy: dst[dstStart+k] == src[srcStart+k] for 0 <= k < n, stated over
+// absolute positions of dst's backing array so that the trigger is a plain
+// select term.
+func (fv *FuncVC) forallCopy(dst Term, dstStart string, src Term, srcStart string, n string) string {
+	fv.nfresh++
+	j := fmt.Sprintf("j%d", fv.nfresh)
+	lo := fv.iadd(fv.offOf(dst), dstStart)
+	hi := fv.iadd(lo, n)
+	srcIdx := fv.iadd(fv.isub(j, lo), fv.iadd(fv.offOf(src), srcStart))
+	sel := app("select", fv.arrOf(dst), j)
+	return fmt.Sprintf("(forall ((%s %s)) (! (=> (and %s %s) (= %s %s)) :pattern (%s)))", j, idxSort(fv.Mode), fv.ile(lo, j), fv.ilt(j, hi), sel, app("select", fv.arrOf(src), srcIdx), sel)
 }
